@@ -562,8 +562,8 @@ def run(tier: str, only=None) -> core.Result:
         cfgs = [{"part": "seq", "prefix": [a], "last": "full"} for a in full_idx]
         name = "b-sequences-depth2-batches-le4"
     else:
-        cfgs = [{"part": "seq", "prefix": [a, b], "last": "full"} for a in full_idx for b in full_idx]
-        name = "b-sequences-depth3-batches-le4"
+        cfgs = [{"part": "seq", "prefix": [a, b], "last": "full"} for a in small_idx for b in full_idx]
+        name = "b-sequences-depth3-first-le2-then-le4"
     out = explorer.explore(RUN, cfgs)
     sched.absorb(res, name, RUN, out, cfgs)
 
@@ -608,8 +608,11 @@ def run(tier: str, only=None) -> core.Result:
         f"(a) every string dddd-dd-dd with year {YEARS[0]}..{YEARS[1]} (incl. non-calendar month/day 00..99), one block per year. "
         f"(b) operations = set_protocol_version(v) for v in {VERSIONS}; single message (response, notification); batch line of "
         "0..4 members each in {valid response R, valid notification N, invalid item X (42 / {jsonrpc} / id-only / string by position)}. "
-        f"Every sequence of length {depth} over the alphabet with batches of <=2 members (20 operations), and every sequence of length "
-        f"{2 if tier == 'quick' else 3} over the full alphabet with batches of <=4 members (128 operations); each sequence runs on a fresh "
+        f"Every sequence of length {depth} over the alphabet with batches of <=2 members (20 operations), and "
+        + ("every sequence of length 2 over the full alphabet with batches of <=4 members (128 operations)" if tier == "quick" else
+           "every sequence of length 3 whose first operation is from the 20-operation alphabet and whose second and third are from the "
+           "full alphabet with batches of <=4 members (128 operations)")
+        + "; each sequence runs on a fresh "
         "StdioClient + scripted child, every step (hence every shorter sequence) is judged against the model. canonical state = negotiated "
         "version (the only field _process_message_data consults; streams are drained after every step); states/transitions = distinct "
         "canonical states / distinct (state, operation) pairs reached. (c) 3x3 real handshakes (preferred x server answer) x 121 batches; "
